@@ -1290,11 +1290,11 @@ impl ObjectFile {
             (ma, mb) => ma.or(mb)
         };
         for (addr, linked_addr) in relocations {
-            // TODO: handle case where the address needed is not found in block map
-            // should really only occur from invalid manipulation of obj file
-            a_obj.get_mut(addr)
-                .unwrap_or_else(|| unreachable!("object file should have had address x{addr:04X} bound"))
-                .replace(linked_addr);
+            // A relocation entry can only point outside of every block if the object file
+            // was damaged or hand-made; there is no word to patch then, so it is skipped.
+            if let Some(word) = a_obj.get_mut(addr) {
+                word.replace(linked_addr);
+            }
         }
 
         Ok(a_obj)
